@@ -227,6 +227,21 @@ pub fn run(p: &[String]) -> Vec<String> {
                 None => vec![hex("<dropped>")],
             }
         }
+        // ---- C19
+        "straight" => {
+            // value pattern decimals thousands
+            let k = u(&p[3]) as usize;
+            let pat = unhex(&p[2]);
+            let matches = vec![pat.clone(), "0".to_string(), if k > 0 { ".".to_string() } else { String::new() }, "0".repeat(k)];
+            vec![hex(&va::format_straight_numeric_value(&unhex(&p[1]), &pat, &matches, &b(&p[4])))]
+        }
+        "format_value" => {
+            // number text, format code : through the public cell API
+            let mut c = umya_spreadsheet::Cell::default();
+            c.set_value_number(unhex(&p[1]).parse::<f64>().unwrap());
+            c.get_style_mut().get_number_format_mut().set_format_code(unhex(&p[2]));
+            vec![hex(&c.get_formatted_value())]
+        }
         // ---- C09
         "parse_render" => vec![hex(&va::parse_render(&unhex(&p[1])))],
         "parse_tokens" => {
